@@ -7,6 +7,8 @@
 #[cfg(kani)]
 mod verif_kani {
     use super::*;
+    #[allow(unused_imports)]
+    use crate::{Compression, HashSum};
 
     const D: u8 = 0x5a;
     /// stand-in for HashSum::b2_digest
